@@ -1,13 +1,15 @@
 """C14 — reverse complement of a circular record stays circular and loses nothing"""
 import gen
 import impl
-from wire import CRec, feats_to_json, feats_from_json, positions
+from wire import CRec, feats_to_json, feats_from_json, positions, site_positions
 
 TABLES = []
 LAKE_TARGETS = ["Moclo.Props.C14"]
 THEOREMS = ["Moclo.C14." + t for t in [
     "rc_rc", "rc_getElem", "rc_rotr", "feature_part_mirrored", "feature_part_flip_flip", "feature_flip",
     "feature_flip_flip_perm", "record_rc"]]
+# reductions under which a failing case stays a case of this property (see shrink.py)
+SHRINK = {"lists": ["feats"], "ints": ["k"]}
 RULE = ("random records with feature tables that include locations left past the end by earlier rotations and "
         "negative ones left by reverse complement; non-trivial = length >= 2 and at least one feature; "
         "distinct by content")
@@ -16,17 +18,19 @@ ASSUMPTIONS = ["'is again a CircularRecord' is a Python type fact: oracle only",
 
 
 def denot(feats, n):
-    return sorted((f.ftype, f.qual, positions(f.parts, n)) for f in feats)
+    return sorted((f.ftype, f.qual, positions(f.parts, n), site_positions(f.parts, n)) for f in feats)
 
 
 def mirrored(den, n):
-    return sorted((t, q, sorted((n - 1 - p, -st) for (p, st) in ps)) for (t, q, ps) in den)
+    # a nucleotide p goes to n-1-p; a between-bases site p (before nucleotide p) goes to n-p
+    return sorted((t, q, sorted((n - 1 - p, -st) for (p, st) in ps), sorted(((n - p) % n, -st) for (p, st) in ss))
+                  for (t, q, ps, ss) in den)
 
 
 def gen_case(rng):
     wd = gen.word(rng)
     n = len(wd)
-    return {"word": wd, "feats": feats_to_json(gen.gen_features(rng, n)), "k": rng.randint(-2 * n, 2 * n)}
+    return {"word": wd, "feats": feats_to_json(gen.gen_features(rng, n, sites=True)), "k": rng.randint(-2 * n, 2 * n)}
 
 
 def check_case(ctx, case):
